@@ -68,7 +68,8 @@ EncodeNode(nd, N) ==
 RECURSIVE Pw(_, _)
 Pw(b, e) == IF e = 0 THEN 1 ELSE b * Pw(b, e - 1)
 
-Decode(code, N) == [i \in 1..N |-> DecodeNode((code \div Pw(NK(N), i - 1)) % NK(N), N)]
+(* TLCEval: TLC keeps [x \in S |-> e] lazy and would re-evaluate e at every application *)
+Decode(code, N) == TLCEval([i \in 1..N |-> DecodeNode((code \div Pw(NK(N), i - 1)) % NK(N), N)])
 
 RECURSIVE EncodeFrom(_, _, _)
 EncodeFrom(G, N, i) == IF i > N THEN 0 ELSE EncodeNode(G[i], N) + NK(N) * EncodeFrom(G, N, i + 1)
@@ -79,7 +80,7 @@ Relabel(G, pi) ==
   LET N == Len(G)
       inv == [j \in 1..N |-> CHOOSE i \in 1..N : pi[i] = j]
       mp(e) == IF e = 0 THEN 0 ELSE pi[e]
-  IN [j \in 1..N |-> Nd(G[inv[j]].k, mp(G[inv[j]].x), mp(G[inv[j]].y))]
+  IN TLCEval([j \in 1..N |-> Nd(G[inv[j]].k, mp(G[inv[j]].x), mp(G[inv[j]].y))])
 
 (* one representative per isomorphism class of labelled graphs: the least code *)
 Canonical(G) ==
@@ -103,7 +104,7 @@ AtomB(N) == 2 * N + 2
 Pure(G) ==
   LET N == Len(G)
       R(e) == Rep(G, e)
-  IN [n \in 1..(2 * N + 2) |->
+  IN TLCEval([n \in 1..(2 * N + 2) |->
         IF n <= N THEN
           LET m == R(n) nd == G[m] IN
           CASE nd.k \in {"v", "r"} -> Nd("v", 0, 0)
@@ -113,7 +114,7 @@ Pure(G) ==
             [] nd.k = "s"          -> Nd("l", AtomA(N), N + m)
         ELSE IF n <= 2 * N THEN
           IF G[n - N].k = "s" THEN Nd("l", AtomB(N), R(G[n - N].x)) ELSE Nd("a", 0, 0)
-        ELSE IF n = AtomA(N) THEN Nd("a", 0, 0) ELSE Nd("b", 0, 0)]
+        ELSE IF n = AtomA(N) THEN Nd("a", 0, 0) ELSE Nd("b", 0, 0)])
 
 Live(G) ==
   LET N == Len(G) S == {n \in 1..N : G[n].k = "s" /\ Rep(G, n) = n} IN
@@ -167,7 +168,7 @@ Dfs(P, stack, seen, acc) ==
 TermVars(P, r) == Dfs(P, <<r>>, {}, <<>>)
 
 (* ------------------------------------------------------------------------ unification *)
-Merge(cls, a, b) == [n \in DOMAIN cls |-> IF cls[n] = a THEN b ELSE cls[n]]
+Merge(cls, a, b) == TLCEval([n \in DOMAIN cls |-> IF cls[n] = a THEN b ELSE cls[n]])
 
 RECURSIVE UStep(_, _, _)
 UStep(P, cls, work) ==
@@ -180,13 +181,13 @@ UStep(P, cls, work) ==
        ELSE UStep(P, Merge(cls, a, b), [c \in 1..Arity(P, a) |-> <<Kid(P, a, c), Kid(P, b, c)>>] \o rest)
 
 (* result: ok and the node equivalence (class representative; a non-variable member if there is one) *)
-Unify(P, L, i, j) == UStep(P, [n \in L |-> n], <<<<i, j>>>>)
+Unify(P, L, i, j) == UStep(P, TLCEval([n \in L |-> n]), <<<<i, j>>>>)
 
 (* the graph after a successful unification, on the same node ids *)
 Quotient(P, L, cls) ==
-  [n \in DOMAIN P |->
+  TLCEval([n \in DOMAIN P |->
      IF n \notin L THEN P[n]
-     ELSE LET m == cls[n] IN Nd(P[m].k, IF P[m].x = 0 THEN 0 ELSE cls[P[m].x], IF P[m].y = 0 THEN 0 ELSE cls[P[m].y])]
+     ELSE LET m == cls[n] IN Nd(P[m].k, IF P[m].x = 0 THEN 0 ELSE cls[P[m].x], IF P[m].y = 0 THEN 0 ELSE cls[P[m].y])])
 
 (* ------------------------------------------------------------------------ standard order *)
 (* vo: rank of every variable node (a total order of the variables)                       *)
@@ -196,12 +197,12 @@ LabCmp(P, vo, i, j) ==
 
 (* comparison of the truncations one level deeper, given the matrix C of the current depth *)
 CmpStep(P, L, vo, C) ==
-  [p \in L \X L |->
+  TLCEval([p \in L \X L |->
      LET lc == LabCmp(P, vo, p[1], p[2]) IN
      IF lc # "=" THEN lc
      ELSE IF Arity(P, p[1]) = 0 THEN "="
      ELSE LET c1 == C[<<Kid(P, p[1], 1), Kid(P, p[2], 1)>>] IN
-          IF c1 # "=" \/ Arity(P, p[1]) = 1 THEN c1 ELSE C[<<Kid(P, p[1], 2), Kid(P, p[2], 2)>>]]
+          IF c1 # "=" \/ Arity(P, p[1]) = 1 THEN c1 ELSE C[<<Kid(P, p[1], 2), Kid(P, p[2], 2)>>]])
 
 RECURSIVE CmpIter(_, _, _, _)
 CmpIter(P, L, vo, hist) ==
@@ -211,7 +212,7 @@ CmpIter(P, L, vo, hist) ==
   ELSE CmpIter(P, L, vo, Append(hist, nx))
 
 (* the matrices that recur for ever (depth -> infinity) *)
-CmpCycle(P, L, vo) == CmpIter(P, L, vo, <<[p \in L \X L |-> "="]>>)
+CmpCycle(P, L, vo) == CmpIter(P, L, vo, <<TLCEval([p \in L \X L |-> "="])>>)
 
 CmpLimit(cyc, i, j) ==
   IF \A k \in 1..Len(cyc) : cyc[k][<<i, j>>] = cyc[1][<<i, j>>] THEN cyc[1][<<i, j>>] ELSE "?"
@@ -220,9 +221,9 @@ CmpLimit(cyc, i, j) ==
 (* copy of the part reachable from r onto the ids n + K; returns the enlarged graph      *)
 CopyGraph(P, r, K) ==
   LET RS == Reach(P, r) IN
-  [n \in (DOMAIN P) \cup {m + K : m \in RS} |->
+  TLCEval([n \in (DOMAIN P) \cup {m + K : m \in RS} |->
      IF n \in DOMAIN P THEN P[n]
-     ELSE LET o == P[n - K] IN Nd(o.k, IF o.x = 0 THEN 0 ELSE o.x + K, IF o.y = 0 THEN 0 ELSE o.y + K)]
+     ELSE LET o == P[n - K] IN Nd(o.k, IF o.x = 0 THEN 0 ELSE o.x + K, IF o.y = 0 THEN 0 ELSE o.y + K)])
 
 RECURSIVE Lock(_, _, _)
 Lock(P, S, front) ==
